@@ -602,3 +602,66 @@ def truth(x) -> bool:
     if isinstance(x, (SBool, SInt)):
         return bool(x)
     return bool(x)
+
+
+# -------------------------------------------------------------------------------------
+def ctx_simplify(t):
+    """simplify a z3 term under the facts of the current path: an if-then-else whose condition the path decides is replaced
+    by the chosen branch (conditions over bound variables are left alone).  Used to bring index terms that went through
+    Python's slice clamping (min/max against the length) back to the plain form they have when the bounds are known to be in
+    range, so that the same abstract quantity asked for along two routes gets the same term."""
+    c = ctx()
+    t = z3.simplify(t)
+    decided = {}
+
+    def decide(cond):
+        k = cond.get_id()
+        if k not in decided:
+            d = None
+            if c.valid(cond)[0] == 'unsat':
+                d = True
+            elif c.valid(z3.Not(cond))[0] == 'unsat':
+                d = False
+            decided[k] = d
+        return decided[k]
+
+    def has_bound(e):
+        if z3.is_var(e):
+            return True
+        if z3.is_quantifier(e):
+            return True
+        return any(has_bound(ch) for ch in e.children())
+
+    seen = {}
+
+    def walk(e):
+        k = e.get_id()
+        if k in seen:
+            return seen[k]
+        r = e
+        if z3.is_app(e) and e.num_args() > 0:
+            if e.decl().kind() == z3.Z3_OP_ITE and not has_bound(e.arg(0)):
+                cond = walk(e.arg(0))
+                d = decide(cond)
+                if d is True:
+                    r = walk(e.arg(1))
+                elif d is False:
+                    r = walk(e.arg(2))
+                else:
+                    r = z3.If(cond, walk(e.arg(1)), walk(e.arg(2)))
+            else:
+                ch = [walk(x) for x in e.children()]
+                if any(a.get_id() != b.get_id() for a, b in zip(ch, e.children())):
+                    try:
+                        r = e.decl()(*ch)
+                    except Exception:
+                        r = e
+        seen[k] = r
+        return r
+    return z3.simplify(walk(t))
+
+
+def ctx_simplify_int(x):
+    if isinstance(x, SInt):
+        return SInt(ctx_simplify(x.term))
+    return x
